@@ -677,3 +677,70 @@ func VH_C02_cert_window() {
 	vReach("rejected", err != nil)
 	vAssert("C02.certificate-outside-its-validity-at-the-sp-clock-is-fatal", err != nil)
 }
+
+// VH_C08_genuine: completeness — a Response a conforming IdP issues for this SP (trusted signature on the
+// Response, on each assertion, or both; plain or encrypted assertions; raw or compressed) is ACCEPTED
+// whenever it satisfies the profile checks; a rejection must be explained by a violated check (or by a
+// dependency outcome the models leave open: round-trip screen, certificate trust).
+func vhGenuine(maxKids int) {
+	sp := vhOrchSP(false)
+	s := &vhScenario{rootSig: vChoice("root.sig", 2)} // none or valid
+	s.root = vhResponseRoot(s, "samlp:Response")
+	n := 1 + vChoice("nChildren-1", maxKids)
+	for i := 0; i < n; i++ {
+		p := "c" + string(rune('0'+i))
+		asig := vhSigValid
+		if s.rootSig == vhSigValid {
+			asig = vChoice(p+".sig", 2) // under a signed Response the assertion itself may be unsigned
+		}
+		a := vhAssertionEl(p, asig)
+		if vFlag(p + ".encrypted") {
+			s.root.AddChild(vhEncryptedEl(p+".enc", a.el))
+		} else {
+			s.root.AddChild(a.el)
+		}
+		s.order = append(s.order, a)
+	}
+	ids := []string{s.ID}
+	for _, a := range s.order {
+		ids = append(ids, a.ID)
+	}
+	for i := range ids {
+		for j := i + 1; j < len(ids); j++ {
+			vAssume(ids[i] != ids[j])
+		}
+	}
+	mode := vChoice("wire.mode", 2)
+	enc := vEncodeDoc("wire", s.root, mode)
+	resp, err := sp.ValidateEncodedResponse(enc)
+	vDebugErr("ValidateEncodedResponse", err)
+	vReach("accepted", err == nil)
+	vReach("rejected", err != nil)
+	if err == nil {
+		vAssert("C08.full-assertion-list-returned-in-order", len(resp.Assertions) == n && vhSameInOrder(resp.Assertions, s.order))
+		return
+	}
+	if vCertRejections() > 0 || vScreenRejections() > 0 {
+		return // a dependency outcome the contracts leave open
+	}
+	// specification of "satisfies the profile": judged at the last reading of the SP clock
+	ok := vAnd(s.Version == "2.0", vOr(s.Destination == "", s.Destination == sp.AssertionConsumerServiceURL))
+	ok = vAnd(ok, vOr(sp.IdentityProviderIssuer == "", s.Issuer == sp.IdentityProviderIssuer))
+	ok = vAnd(ok, s.StatusCode == "urn:oasis:names:tc:SAML:2.0:status:Success")
+	if mode == 1 {
+		ok = vAnd(ok, vWireInflatedLen("wire") <= 5*1024*1024) // within the (default) decompression limit, C12
+	}
+	reads := vClockReads("sp")
+	for _, a := range s.order {
+		ok = vAnd(ok, vOr(sp.IdentityProviderIssuer == "", a.Issuer == sp.IdentityProviderIssuer))
+		ok = vAnd(ok, vAnd(a.Method == "urn:oasis:names:tc:SAML:2.0:cm:bearer", a.Recipient == sp.AssertionConsumerServiceURL))
+		ok = vAnd(ok, vAnd(a.NotOnOrAfter != "", vParseOK(a.NotOnOrAfter)))
+		if reads >= 1 {
+			ok = vAnd(ok, vClockAt("sp", reads-1) < vParseNs(a.NotOnOrAfter))
+		}
+	}
+	vAssert("C08.genuine-response-satisfying-the-profile-is-accepted", vNot(ok))
+}
+
+func VH_C08_genuine()      { vhGenuine(2) }
+func VH_C08_genuine_deep() { vhGenuine(3) }
